@@ -406,14 +406,14 @@ func c20Grid(t *testing.T) rt.Result {
 func TestC20(t *testing.T) {
 	c := rt.Get()
 	runCase(t, "grid", 0, map[string]any{"space": "3 remote x 3 local x 5 local AS x 5 remote AS x 6 hold x 6 port x passive = 16200 configurations + 8 router ids"}, func(t *testing.T) rt.Result { return c20Grid(t) })
-	n := c.N(900, 30000)
+	n := c.N(6000, 150000)
 	for i := 0; i < n; i++ {
 		seed := uint64(i)*1181783497276652981 + c.Seed
 		mode := []string{"idle", "serving", "closing"}[i%3]
 		runCase(t, "histories", i, map[string]any{"seed": seed, "server": mode}, func(t *testing.T) rt.Result { return c20History(t, seed, mode) })
 	}
 	kinds := []string{"add-while-serving", "delete-stops", "before-serve", "serve-after-close", "duplicate-add"}
-	m := c.N(100, 3000)
+	m := c.N(500, 10000)
 	for i := 0; i < m; i++ {
 		kind := kinds[i%len(kinds)]
 		seed := uint64(i)*17 + c.Seed
